@@ -534,11 +534,40 @@ def _(m, callee, args):
     return ERR(Enum(1, [args[0].fields[0]], 'Io'))
 
 
-@model(r'^OnceLock::<.*>::get_or_init::<')
+def _oncelock_key(m, callee, arg):
+    d = arg
+    while isinstance(d, (Ref, ValRef)) and not isinstance(d, tuple):
+        nd = m.read_place(d.frame, d.place) if isinstance(d, Ref) else d.v
+        if nd is d:
+            break
+        d = nd
+    tag = repr(d) if isinstance(d, tuple) else ''
+    return re.sub(r'::(get_or_init|get|set|get_mut|take).*$', '', callee) + '|' + tag
+
+
+@model(r'^OnceLock::<.*>::(get_or_init::<.*|get|set|new)$')
 def _(m, callee, args):
-    if 'registry' not in m.env:
-        m.env['registry'] = HMap()
-    return ValRef(('mutex', m.env['registry']))
+    """process-global cells: the export registry (a Mutex<HashMap<PathBuf, ..>>) keeps its dedicated model; any other OnceLock is a
+    plain cell that lives as long as the modelled process (m.env), so a value cached on first use is seen by later calls"""
+    op = re.search(r'::(get_or_init|get|set|new)', callee).group(1)
+    if op == 'new':
+        return ('oncelock-static',)
+    if 'Mutex<HashMap<PathBuf' in callee or 'Mutex<std::collections::HashMap<' in callee:
+        if 'registry' not in m.env:
+            m.env['registry'] = HMap()
+        return ValRef(('mutex', m.env['registry'])) if op == 'get_or_init' else some(ValRef(('mutex', m.env['registry'])))
+    cells = m.env.setdefault('oncelocks', {})
+    key = _oncelock_key(m, callee, args[0])
+    if op == 'get':
+        return some(ValRef(cells[key])) if key in cells else NONE()
+    if op == 'set':
+        if key in cells:
+            return ERR(args[1])
+        cells[key] = args[1]
+        return OK(())
+    if key not in cells:
+        cells[key] = m.call_closure(args[1], [])
+    return ValRef(cells[key])
 
 
 @model(r'slice::<impl \[(&str|String)\]>::join::<&str>$')
